@@ -431,7 +431,7 @@ impl Sim {
             self.flush_until(at)?;
         }
         // end of every stall
-        let end = self.links.iter().flat_map(|l| l.stalls.iter().map(|s| s.1)).max().unwrap_or(0);
+        let end = self.links.iter().flat_map(|l| l.stalls.iter().map(|s| s.1)).filter(|e| *e < u64::MAX / 8).max().unwrap_or(0);
         self.now = self.now.max(end.min(far));
         let was = self.faults_on;
         self.faults_on = false;
@@ -442,6 +442,29 @@ impl Sim {
 }
 
 fn gen_link(r: &mut Rng, profile: Profile, horizon: u64) -> Link {
+    if r.chance(1, 12) {
+        // a receiver application that buffers everything and hands it to the decoder in one go at
+        // the end (stalled for the whole transfer), behind a link that loses little: the decoder's
+        // first attempt sees far more than K symbols
+        let drop_iid = match r.below(3) {
+            0 => 0.0,
+            1 => 0.002 * r.f64(),
+            _ => 0.05 * r.f64(),
+        };
+        return Link {
+            drop_iid,
+            ge: None,
+            bad: false,
+            partitions: vec![],
+            dup: if r.chance(1, 3) { 0.2 * r.f64() } else { 0.0 },
+            base: 1,
+            jitter: if r.chance(1, 2) { r.below(20) } else { 0 },
+            stalls: vec![(0, u64::MAX / 4)],
+            pending: vec![],
+            max_send_index: 0,
+            late_join_pending: false,
+        };
+    }
     let on = |r: &mut Rng| r.chance(1, 2);
     let heavy = r.chance(1, 12);
     let drop_iid = if on(r) { if heavy { 0.6 + 0.35 * r.f64() } else { 0.4 * r.f64() } } else { 0.0 };
@@ -531,6 +554,7 @@ pub fn simulate_setup(mut r: Rng, setup: Setup, profile: Profile, oracles: Oracl
         s.faults.touch(k);
     }
     s.faults.touch("twin_symbols_sent");
+    s.faults.add("receiver_buffers_whole_transfer", s.links.iter().filter(|l| l.stalls.first().map(|w| w.1 > u64::MAX / 8).unwrap_or(false)).count() as u64);
     s.faults.touch("duplicate_within_batch");
     s.faults.touch("duplicate_of_completing_delivery");
     let result = run_phases(&mut s, &ks);
